@@ -296,7 +296,7 @@ def case_operators(nx, ny, nz, h, ndof, lead, cplx_u, seed):
     if not (np.array_equal(su.state, u) and np.array_equal(sy.state, y)):
         bad.append(('input states not modified', None, None, None))
     # sensitivities: EO^T = NO, NO^T = EO  (real part taken for real inputs is not involved here: data real unless cplx_u)
-    dy = rng.standard_normal(tuple(lead) + (g.nel,))
+    dy = rng.standard_normal(tuple(lead) + (g.nel,)) + (1j * rng.standard_normal(tuple(lead) + (g.nel,)) if cplx_u else 0)
     du = rng.standard_normal(n)
     eo.sig_out[0].sensitivity = dy.copy()
     eo.sensitivity()
